@@ -257,7 +257,8 @@ def run_check(prop, tier, seed):
     other = other_interpreter()
     n_other = 0
     if other:
-        n_other = max(1, nshards // 4)
+        # quick: a quarter of the workload again; thorough: all of it again
+        n_other = nshards if tier == 'thorough' else max(1, nshards // 4)
         plan += [(other, shard) for shard in range(n_other)]
     for k, (exe_, shard) in enumerate(plan):
         outpath = os.path.join(scratch, 'shard%d.json' % k)
